@@ -227,3 +227,96 @@ func ClassifyList(values []string, tok string) ListClass {
 	}
 	return ListNone
 }
+
+// Ext is one element of a Sec-WebSocket-Extensions list.
+type Ext struct {
+	Name   string
+	Params [][2]string
+}
+
+// ParseExtensionList parses one header line as
+//   1#( token *( OWS ";" OWS token [ "=" ( token / quoted-string ) ] ) )
+// per RFC 6455 9.1 / RFC 9110 5.6 (quoted-string with backslash escapes). ok is
+// false when the line does not match the grammar.
+func ParseExtensionList(v string) (exts []Ext, ok bool) {
+	i := 0
+	ws := func() {
+		for i < len(v) && (v[i] == ' ' || v[i] == '\t') {
+			i++
+		}
+	}
+	token := func() string {
+		st := i
+		for i < len(v) && isTchar(v[i]) {
+			i++
+		}
+		return v[st:i]
+	}
+	for {
+		ws()
+		name := token()
+		if name == "" {
+			return nil, false
+		}
+		e := Ext{Name: name}
+		for {
+			ws()
+			if i >= len(v) || v[i] != ';' {
+				break
+			}
+			i++
+			ws()
+			k := token()
+			if k == "" {
+				return nil, false
+			}
+			val := ""
+			ws()
+			if i < len(v) && v[i] == '=' {
+				i++
+				ws()
+				if i < len(v) && v[i] == '"' {
+					i++
+					var b []byte
+					closed := false
+					for i < len(v) {
+						c := v[i]
+						if c == '\\' {
+							if i+1 >= len(v) {
+								return nil, false
+							}
+							b = append(b, v[i+1])
+							i += 2
+							continue
+						}
+						i++
+						if c == '"' {
+							closed = true
+							break
+						}
+						b = append(b, c)
+					}
+					if !closed {
+						return nil, false
+					}
+					val = string(b)
+				} else {
+					val = token()
+					if val == "" {
+						return nil, false
+					}
+				}
+			}
+			e.Params = append(e.Params, [2]string{k, val})
+		}
+		exts = append(exts, e)
+		ws()
+		if i >= len(v) {
+			return exts, true
+		}
+		if v[i] != ',' {
+			return nil, false
+		}
+		i++
+	}
+}
